@@ -639,6 +639,67 @@ def rule_r21_body(body, counts):
 RULES_BODY['R21'] = rule_r21_body
 
 
+def rule_r24_body(body, counts):
+    """R24 (always on): a guard `if C { continue; }` that is a top-level statement of a `for` body is replaced by wrapping the rest of
+    that body in `if !(C) { .. }` (Verus 0.2026.09.13: "for-loops do not yet support continue"). Any other `continue` is left alone."""
+    changed = True
+    while changed:
+        changed = False
+        for m in re.finditer(r'^[ \t]*for\b[^\n]*', body, flags=re.M):
+            pos = _loop_open_brace(body[m.start():])
+            if pos is None:
+                continue
+            ob = m.start() + pos
+            cb = _match_brace(body, ob)
+            inner = body[ob + 1:cb]
+            # top-level statements of the loop body: scan for `if` at depth 0
+            depth = 0
+            i = 0
+            toks = rustlex.code_toks(rustlex.lex(inner))
+            stmt_start = True
+            hit = None
+            for ti, t in enumerate(toks):
+                if t.kind == 'p' and t.text in '([{' and len(t.text) == 1:
+                    depth += 1
+                elif t.kind == 'p' and t.text in ')]}' and len(t.text) == 1:
+                    depth -= 1
+                    if depth == 0 and t.text == '}':
+                        stmt_start = True
+                        continue
+                if depth == 0 and stmt_start and t.kind == 'id' and t.text == 'if' and not (ti > 0 and toks[ti - 1].kind == 'id' and toks[ti - 1].text == 'else'):
+                    # find its block
+                    j = ti + 1
+                    d2 = 0
+                    while j < len(toks):
+                        tj = toks[j]
+                        if tj.kind == 'p' and tj.text in ('(', '['):
+                            d2 += 1
+                        elif tj.kind == 'p' and tj.text in (')', ']'):
+                            d2 -= 1
+                        elif tj.kind == 'p' and tj.text == '{' and d2 == 0:
+                            break
+                        j += 1
+                    if j + 3 < len(toks) + 1 and j + 3 <= len(toks) - 0 and toks[j + 1].kind == 'id' and toks[j + 1].text == 'continue' \
+                            and toks[j + 2].text == ';' and toks[j + 3].text == '}' \
+                            and not (j + 4 < len(toks) and toks[j + 4].kind == 'id' and toks[j + 4].text == 'else'):
+                        hit = (t.start, toks[ti + 1].start, toks[j].start, toks[j + 3].end)
+                        break
+                if depth == 0 and t.kind == 'p' and t.text == ';':
+                    stmt_start = True
+                elif not (t.kind == 'p' and t.text == '}'):
+                    stmt_start = False if depth > 0 or t.kind != 'p' or t.text != ';' else True
+            if hit:
+                if_s, cond_s, brace_s, end_e = hit
+                cond = inner[cond_s:brace_s].strip()
+                rest = inner[end_e:]
+                new_inner = inner[:if_s] + 'if !(%s) { // [R24] was: if %s { continue; }' % (cond, ' '.join(cond.split())) + rest.rstrip() + '\n} // [R24]\n'
+                body = body[:ob + 1] + new_inner + body[cb:]
+                counts['R24'] = counts.get('R24', 0) + 1
+                changed = True
+                break
+    return body
+
+
 def rule_r23_body(body, counts):
     """R23: `format!("p0{}p1{}p2", a, b)` -> `verif_fmt2("p0", &a, "p1", &b, "p2")` (only plain `{}` placeholders, at most 3, literal
     format string without escaped braces); the stub's result is the concatenation of the literal pieces and the Display text of the
@@ -756,6 +817,24 @@ def weave_body(body, d, fname):
                 if lines[j].strip() != '}':
                     raise ExtractError('lost anchor: %s endloop ~%s: closing brace shares its line' % (fname, rx))
                 inserts_before.setdefault(j, []).extend(text)
+        elif name in ('afterblock', 'endblock'):
+            # like afterloop / endloop, for any statement that opens a `{` block on (or after) the anchored line: if / if let / match / loop
+            rx, k, _ = parse_anchor(argstr)
+            i = find_line(lines, rx, k, fname + ' ' + name)
+            rest = '\n'.join(lines[i:])
+            pos = _stmt_open_brace(rest)
+            if pos is None:
+                raise ExtractError('lost anchor: %s %s ~%s does not open a block' % (fname, name, rx))
+            close = _match_brace(rest, pos)
+            j = i + rest[:close].count('\n')
+            if name == 'afterblock':
+                if lines[j].strip() != '}':
+                    raise ExtractError('lost anchor: %s afterblock ~%s: the block does not end on a line of its own' % (fname, rx))
+                inserts_after.setdefault(j, []).extend(text)
+            else:
+                if lines[j].strip() != '}':
+                    raise ExtractError('lost anchor: %s endblock ~%s: closing brace shares its line' % (fname, rx))
+                inserts_before.setdefault(j, []).extend(text)
         elif name == 'loop':
             rx, k, opts = parse_anchor(argstr)
             i = find_line(lines, rx, k, fname + ' loop')
@@ -804,6 +883,22 @@ def weave_body(body, d, fname):
             out += inserts_after[i]
     out += close_txt
     return '\n'.join(out)
+
+
+def _stmt_open_brace(text):
+    """offset of the first '{' at bracket depth 0 in the text (the block opened by the statement that starts there), or None."""
+    try:
+        toks = rustlex.lex(text)
+    except ValueError:
+        return None
+    d = 0
+    for t in toks:
+        if t.kind == 'p':
+            if t.text in '([': d += 1
+            elif t.text in ')]': d -= 1
+            elif t.text == '{' and d == 0:
+                return t.start
+    return None
 
 
 def _loop_open_brace(text):
@@ -1112,6 +1207,7 @@ def emit_fn(d, unit, report, canaries):
         for pos, argstr, text in sorted(located, key=lambda x: -x[0]):
             body = rule_blockcall(body, argstr, text, fname, rel, qual, counts, info, at_line=pos)
     body = strip_statement_macro(body, counts)
+    body = rule_r24_body(body, counts)
     body = rule_time(body, counts)
     if 'R1' in rules:
         body = rule_r1(body, counts, info)
